@@ -15,8 +15,8 @@ EXTENDS Goalign, Json, IOUtils
 Trace == ndJsonDeserialize(IOEnv.TRACE)
 MinDraws == 100          \* a support key is judged once it has at least this many draws
 
-VARIABLES l, heap, bad, memo, sup, stats
-vars == <<l, heap, bad, memo, sup, stats>>
+VARIABLES l, heap, bad, memo, sup, stats, flagged
+vars == <<l, heap, bad, memo, sup, stats, flagged>>
 
 AbsObj(v, pol) == [k |-> v.k, al |-> v.al, pol |-> pol, len |-> v.len, rows |-> v.rows]
 
@@ -33,7 +33,7 @@ ViewsOK(v) ==
           IF j = 0 THEN ~q.f /\ q.id < 0
           ELSE q.f /\ q.id = j - 1 /\ q.s = v.rows[j].s
 
-Failing(h, e) ==
+Failing(h, e, fl) ==
   LET op == e.op  recv == e.recv  a == e.a
       n    == Len(e.objs)
       pols == PolAfter(h, op, recv, a, n)
@@ -41,13 +41,15 @@ Failing(h, e) ==
       dupRecv == recv # 0 /\ HasDupNames(h[recv])
       argObjs == {recv} \cup (IF "other" \in DOMAIN a THEN {a.other} ELSE {}) \cup (IF "prof" \in DOMAIN a THEN {a.prof} ELSE {})
       frame == \A i \in 1..Len(h) : (i # recv \/ op \in ReadOnlyOps) => (i <= n /\ obs[i] = h[i])
-      views == \A i \in 1..n : ViewsOK(e.objs[i])
-      rect  == \A i \in 1..n : Rect(obs[i])
+      \* an object whose views / shape were already reported stays flagged and is not reported again
+      views == \A i \in 1..n : i \in fl \/ ViewsOK(e.objs[i])
+      rect  == \A i \in 1..n : i \in fl \/ Rect(obs[i])
       newObs == [k \in 1..(n - Len(h)) |-> obs[Len(h) + k]]
       checks ==
-        IF e.kind = "panic" THEN [noPanic |-> FALSE]
+        IF e.kind = "panic" THEN [noPanic |-> \E i \in argObjs \ {0} : i \in fl \/ HasDupNames(h[i])]   \* (not judged on an object already reported)
         ELSE IF n < Len(h) THEN [objectsKept |-> FALSE]
         ELSE IF dupRecv \/ \E i \in argObjs \ {0} : HasDupNames(h[i]) THEN [frame |-> frame]   \* caller-made duplicates: not judged
+        ELSE IF \E i \in argObjs \ {0} : i \in fl THEN [frame |-> frame]   \* an object already reported as inconsistent: not judged again
         ELSE IF op \in RelationalOps THEN
           LET mustErr == ErrRel(h, op, recv, a) IN
           [errClass |-> (e.kind = "err") = mustErr,
@@ -73,17 +75,17 @@ SeenAtoms(h, e, obs) ==
     [] e.op = "ShuffleSequences" -> [all |-> AtomsRowOrder(pre), seen |-> SeenRowOrder(obs[e.recv])]
     [] OTHER -> [all |-> {}, seen |-> {}]
 
-Init == l = 1 /\ heap = <<>> /\ bad = <<>> /\ memo = <<>> /\ sup = <<>> /\ stats = [judged |-> 0, memoHits |-> 0]
+Init == l = 1 /\ heap = <<>> /\ bad = <<>> /\ memo = <<>> /\ sup = <<>> /\ stats = [judged |-> 0, memoHits |-> 0] /\ flagged = {}
 
 StepEvent ==
   /\ l <= Len(Trace)
   /\ LET e == Trace[l] IN
-     IF e.op = "Reset" THEN heap' = <<>> /\ UNCHANGED <<bad, memo, sup, stats>>
+     IF e.op = "Reset" THEN heap' = <<>> /\ flagged' = {} /\ UNCHANGED <<bad, memo, sup, stats>>
      ELSE
        LET n    == Len(e.objs)
            pols == PolAfter(heap, e.op, e.recv, e.a, n)
            obs  == [i \in 1..n |-> AbsObj(e.objs[i], pols[i])]
-           f    == Failing(heap, e)
+           f    == Failing(heap, e, flagged)
            mk   == "mk" \in DOMAIN e /\ e.mk
            key  == <<e.op, e.recv, e.a, heap>>
            val  == <<e.kind, e.ret, obs>>
@@ -96,6 +98,7 @@ StepEvent ==
            si   == IF \E k \in 1..Len(sup) : sup[k].key = skey
                    THEN CHOOSE k \in 1..Len(sup) : sup[k].key = skey ELSE 0
        IN /\ heap' = obs
+          /\ flagged' = IF e.kind = "panic" THEN flagged ELSE {i \in 1..n : ~ViewsOK(e.objs[i]) \/ ~Rect(obs[i])}
           /\ bad' = IF f2 = {} THEN bad ELSE Append(bad, [i |-> l, op |-> e.op, failing |-> SetToSeq(f2)])
           /\ memo' = IF mk /\ ~hit THEN Append(memo, <<key, val>>) ELSE memo
           /\ sup' = IF ~sk THEN sup
